@@ -8,7 +8,7 @@
    whatever formats or ignore patterns were used") is proved for flat trees (one history at the root, no renames) with
    ANY number of generations: C03_unchanged_tree_all_exit_0 and C03_flat_cycle below; for nested histories and
    renames the composition is carried by the lockstep correspondence. *)
-From MHL Require Import Model.Commands Gen.Generated Proofs.BaseFacts Proofs.TreeFacts Proofs.VerifyFacts Proofs.FreshFacts Proofs.HistFacts Proofs.FlatFacts.
+From MHL Require Import Model.Commands Gen.Generated Proofs.BaseFacts Proofs.TreeFacts Proofs.VerifyFacts Proofs.FreshFacts Proofs.HistFacts Proofs.FlatFacts Proofs.ReloadFacts Proofs.NestedFacts.
 
 Theorem C03_verify_reports_exactly : forall Hb matches C cdig t ipats ifile hs,
   load C cdig t = inl hs -> lh_gens (root_hist hs) <> [] ->
@@ -251,3 +251,80 @@ Print Assumptions C03_readers_always_end_with_an_exit_code.
 
 Theorem C03_codes : exit_completeness = 10%Z /\ exit_verification_failed = 11%Z /\ exit_new_files_found = 21%Z /\ exit_single_file_not_found = 20%Z.
 Proof. repeat split; reflexivity. Qed.
+
+(* ANY NESTING OF HISTORIES (folder mode, no rename detection).  `nstate hs t`, for the list `load` returns on tree t: no
+   record has a previous path; every recorded digest of a path that is a file now is that file's digest; nothing recorded
+   is missing under the recorded patterns; every child history the root's latest generation refers to is there; the
+   pattern list holds nothing twice.  From such a state -- however many histories are nested however deep, whatever they
+   hold -- `create` with any formats (-n or not) on the untouched tree exits 0, leaves such a state again, verify and diff
+   on the result exit 0 with empty reports, and every history only grew (`ext`, C06); hence by induction any number of
+   runs.  The run itself never aborts on ANY tree (C03_nested_create_never_aborts: every record of every history's new
+   generation stems from exactly one traversal event, so its validation cannot fail).
+   Proofs/NestedFacts.v: the session after the traversal record by record for the list of loaded histories
+   (`fold_events_sinv`), commit + reload (Proofs/ReloadFacts.v), the references after the run (`post_reference`),
+   completeness and references to child histories after the run. *)
+Theorem C03_nested_create_never_aborts : forall Hb matches C cdig ser h0 kids hs req no_dh ip ifl,
+  wf_tree C (Dir h0 kids) -> load C cdig (Dir h0 kids) = inl hs ->
+  o_outcome (snd (create_folder Hb matches C cdig ser (Dir h0 kids) req no_dh false ip ifl)) <> Abort.
+Proof. exact create_nested_never_aborts. Qed.
+Print Assumptions C03_nested_create_never_aborts.
+Theorem C03_nested_unchanged_tree_cycle : forall Hb matches C cdig ser h0 kids hs req no_dh,
+  wf_tree C (Dir h0 kids) -> load C cdig (Dir h0 kids) = inl hs -> req <> [] -> nstate Hb matches C hs (Dir h0 kids) ->
+  let run := create_folder Hb matches C cdig ser (Dir h0 kids) req no_dh false [] [] in
+  o_outcome (snd run) = Exit 0 /\
+  exists h1 kids1 hs', fst run = Dir h1 kids1 /\ wf_tree C (fst run) /\ load C cdig (fst run) = inl hs' /\ nstate Hb matches C hs' (fst run) /\
+    Forall2 (ext C cdig ser) hs hs' /\
+    verify_result Hb matches C cdig false (fst run) [] [] = Some (mkVR 0 [] [] []) /\
+    verify_result Hb matches C cdig true (fst run) [] [] = Some (mkVR 0 [] [] []).
+Proof. exact nested_cycle. Qed.
+Print Assumptions C03_nested_unchanged_tree_cycle.
+Theorem C03_nested_unchanged_tree_sequences : forall Hb matches C cdig ser rs h0 kids hs,
+  wf_tree C (Dir h0 kids) -> load C cdig (Dir h0 kids) = inl hs -> nstate Hb matches C hs (Dir h0 kids) -> Forall (fun x => fst x <> []) rs ->
+  let r := run_creates Hb matches C cdig ser (Dir h0 kids) rs in
+  Forall (fun o => o = Exit 0) (snd r) /\
+  exists hs', load C cdig (fst r) = inl hs' /\ Forall2 (ext C cdig ser) hs hs' /\
+    (rs <> [] -> verify_result Hb matches C cdig false (fst r) [] [] = Some (mkVR 0 [] [] []) /\
+                 verify_result Hb matches C cdig true (fst r) [] [] = Some (mkVR 0 [] [] [])).
+Proof. exact nested_sequences. Qed.
+Print Assumptions C03_nested_unchanged_tree_sequences.
+(* with explicit ignore patterns on the run (the state is then described under the patterns the run uses) *)
+Theorem C03_nested_run : forall Hb matches C cdig ser h0 kids hs req no_dh ip ifl,
+  let t := Dir h0 kids in
+  let spec := set_patterns (latest_patterns (lh_gens (root_hist hs))) ip (pattern_file_lines ifl) in
+  wf_tree C t -> load C cdig t = inl hs -> req <> [] ->
+  nprev hs -> ncur Hb C hs t -> NoDup (latest_patterns (lh_gens (root_hist hs))) ->
+  missing matches spec (diff_paths (expected_paths hs) (visited (events matches C spec [] t))) = [] ->
+  missing_history_folders C hs t = [] ->
+  let run := create_folder Hb matches C cdig ser t req no_dh false ip ifl in
+  o_outcome (snd run) = Exit 0 /\
+  exists h1 kids1 hs', fst run = Dir h1 kids1 /\ wf_tree C (fst run) /\ load C cdig (fst run) = inl hs' /\ nstate Hb matches C hs' (fst run) /\
+    Forall2 (ext C cdig ser) hs hs' /\
+    verify_result Hb matches C cdig false (fst run) [] [] = Some (mkVR 0 [] [] []) /\
+    verify_result Hb matches C cdig true (fst run) [] [] = Some (mkVR 0 [] [] []).
+Proof. exact nested_run. Qed.
+Print Assumptions C03_nested_run.
+
+(* non-vacuity: a folder `a` sealed on its own (one generation, one file), placed beside a second file in a tree whose
+   root has no history yet: the state holds; the run at the root writes into BOTH histories, exits 0, and the result
+   verifies *)
+Definition c03_cdig (c : N) : text := [c].
+Definition c03_ser (g : gen) : N := (g_no g + 10)%N.
+Definition c03_Hb (f : fmt) (b : bytes) : bytes := match f with Md5 => b | _ => 0%N :: b end.
+Definition c03_m (spec : list text) (s : text) : bool := false.
+Definition c03_inner : node N := fst (create_folder c03_Hb c03_m N c03_cdig c03_ser (Dir None [([102%N], @File N [7%N])]) [Md5] false false [] []).
+Definition c03_t : node N := Dir None [([97%N], c03_inner); ([103%N], @File N [8%N])].
+Example C03_nested_state_nonvacuous :
+  match load N c03_cdig c03_t with
+  | inl hs => map (fun h => (lh_root h, length (lh_gens h))) hs = [([[97%N]], 1); ([], 0)] /\ wf_tree N c03_t /\ nstate c03_Hb c03_m N hs c03_t /\
+              let run := create_folder c03_Hb c03_m N c03_cdig c03_ser c03_t [Sha1] false false [] [] in
+              o_outcome (snd run) = Exit 0 /\ map fst (o_written (snd run)) = [[[97%N]]; []]
+  | inr _ => False
+  end.
+Proof.
+  vm_compute load. split; [reflexivity|]. split.
+  { vm_compute. constructor; [cbn; repeat constructor; cbn; intuition discriminate|].
+    repeat constructor; cbn; intuition discriminate. }
+  split; [|vm_compute; split; reflexivity].
+  split; [apply nprev_b_ok; vm_compute; reflexivity|]. split; [apply (ncur_b_ok c03_Hb N); vm_compute; reflexivity|].
+  split; [vm_compute; constructor|]. split; vm_compute; reflexivity.
+Qed.
